@@ -165,7 +165,7 @@ class C16(Check):
     thorough_examples = 3000
     chunk = 150
     rule = (
-        "[drawn in addition since rounds 13-15: component prefixes that are leading substrings of component names; the document must declare the requested OpenAPI version; snake / camel and dotted twin names with different signatures] "
+        "[round 16: OpenRPC documents of applications with a second endpoint re-using a method name] [drawn in addition since rounds 13-15: component prefixes that are leading substrings of component names; the document must declare the requested OpenAPI version; snake / camel and dotted twin names with different signatures] "
         "cases: method sets of 1..4 methods (functions and class based view methods, context parameters, custom exposed names, the same function exposed under a second name) with 0..3 "
         "parameters annotated over int / str / float / bool / Optional / List / Dict / three pydantic model classes (nested, optional, list of), "
         "return annotations incl. None and missing, docstrings (none, summary only, full reST with :param: / :returns: / :raises: of registered "
